@@ -103,6 +103,25 @@ def extract():
   emit(defs, "index_to_key_rejects_negative", "bool",
        g_bool(has(itk, "index += len(args)\n      if index < 0:\n        raise IndexError")),
        "signatures.py SignatureInfo.index_to_key: negative out-of-range index")
+  ttak = src(find_def(sig, "SignatureInfo.transform_to_args_kwargs"))
+  emit(defs, "transform_fills_skipped_positionals", "bool",
+       g_bool(has(ttak, "def append_positional(value):")
+              and has(ttak, "positional_values.append(skipped_param.default)")
+              and has(ttak, "if skipped_param.default is skipped_param.empty: raise TypeError")
+              and ttak.count("skipped.append(param)") == 2
+              and ttak.count("append_positional(") == 6),
+       "signatures.py transform_to_args_kwargs: an unset positional parameter before a set one is "
+       "filled with its default or makes the transformation raise (PyCall.transform_build)")
+  emit(defs, "transform_posorkw_condition", "string",
+       coq_string([src(n.test) for n in ast.walk(find_def(sig, "SignatureInfo.transform_to_args_kwargs"))
+                   if isinstance(n, ast.If) and "include_pos_or_kw_in_args" in src(n.test)][0]),
+       "signatures.py transform_to_args_kwargs: when positional-or-keyword values go to *args")
+  oa = src(find_def(cfg, "ordered_arguments"))
+  emit(defs, "ordered_arguments_posonly_by_index", "bool",
+       g_bool(has(oa, "key = index if param.kind == param.POSITIONAL_ONLY else name")
+              and has(oa, "param.kind in (param.VAR_KEYWORD, param.POSITIONAL_ONLY, param.VAR_POSITIONAL)")),
+       "config.py ordered_arguments: positional-only parameters are read by index only; a stored "
+       "name equal to a positional-only / *args parameter is a **kwargs entry")
   return defs
 
 
